@@ -1084,3 +1084,24 @@ package types
 //@ trusted func BlockFromProto(bp *kproto.Block, hasher TrieHasher) (r *Block, err error)
 //@   modifies nothing
 //@   ensures (err == nil <==> decodesOK(bp)) && (err == nil ==> r != nil)
+
+// The generated header encoder writes the fields in the order of the struct declaration (the reflection
+// decoder reads them back in that order): each value goes out in its own slot.
+//@ func (obj *Header) EncodeRLP(_w io.Writer) (err error)
+//@   for C16
+//@   requires obj != nil
+//@   modifies *
+//@   opt assumecallreqs
+//@   ensures [scalarsInDeclarationOrder] arg(nth(EncoderBuffer.WriteUint64, 1), 1) == old(obj.Height) && arg(nth(EncoderBuffer.WriteUint64, 2), 1) == old(obj.NumTxs) && arg(nth(EncoderBuffer.WriteUint64, 3), 1) == old(obj.GasLimit) && arg(nth(EncoderBuffer.WriteUint64, 4), 1) == old(obj.LastBlockID.PartsHeader.Total)
+//@   ensures [hashesInDeclarationOrder] sameArray(arg(nth(EncoderBuffer.WriteBytes, 1), 1), obj.LastBlockID.Hash[:]) && sameArray(arg(nth(EncoderBuffer.WriteBytes, 2), 1), obj.LastBlockID.PartsHeader.Hash[:]) && sameArray(arg(nth(EncoderBuffer.WriteBytes, 3), 1), obj.ProposerAddress[:]) && sameArray(arg(nth(EncoderBuffer.WriteBytes, 4), 1), obj.LastCommitHash[:]) && sameArray(arg(nth(EncoderBuffer.WriteBytes, 5), 1), obj.TxHash[:]) && sameArray(arg(nth(EncoderBuffer.WriteBytes, 6), 1), obj.ValidatorsHash[:]) && sameArray(arg(nth(EncoderBuffer.WriteBytes, 7), 1), obj.NextValidatorsHash[:]) && sameArray(arg(nth(EncoderBuffer.WriteBytes, 8), 1), obj.ConsensusHash[:]) && sameArray(arg(nth(EncoderBuffer.WriteBytes, 9), 1), obj.AppHash[:]) && sameArray(arg(nth(EncoderBuffer.WriteBytes, 10), 1), obj.EvidenceHash[:])
+
+// ---------------------------------------------------------------- C18: a commit signature slot names a known flag
+// CommitSig.BlockID panics on any flag other than absent/commit/nil, and it runs (VerifyCommit ->
+// VoteSignBytes -> GetVote) before any signature is looked at: validation must have excluded the rest,
+// including 0, the protobuf default.
+//@ func (cs CommitSig) ValidateBasic() (err error)
+//@   for C18 C02
+//@   modifies nothing
+//@   ensures [flagIsOneOfTheThree] err == nil ==> cs.BlockIDFlag == BlockIDFlagAbsent || cs.BlockIDFlag == BlockIDFlagCommit || cs.BlockIDFlag == BlockIDFlagNil
+//@   ensures [signedUnlessAbsent] err == nil && cs.BlockIDFlag != BlockIDFlagAbsent ==> len(cs.Signature) > 0
+//@   ensures [absentSlotIsEmpty] err == nil && cs.BlockIDFlag == BlockIDFlagAbsent ==> len(cs.Signature) == 0 && cs.ValidatorAddress == common.Address{}
